@@ -40,7 +40,13 @@ func firstLine(s string) string {
 // server state shared with the handler (one request at a time per process)
 type server struct {
 	preferJSON bool
-	results    []model.ProviderResult
+	// extra options of the response writer (custom path type names)
+	opts        []rwriter.Option
+	gotPathType string
+	// missFor: multihashes (as strings of their bytes) for which the server
+	// has no results
+	missFor map[string]bool
+	results []model.ProviderResult
 	// what the handler observed
 	gotMh    multihash.Multihash
 	gotCid   cid.Cid
@@ -58,15 +64,20 @@ func (s *server) ServeHTTP(w http.ResponseWriter, r *http.Request) {
 		}
 	}()
 	s.gotMh, s.gotCid, s.newErr = nil, cid.Undef, nil
-	rw, err := rwriter.New(w, r, rwriter.WithPreferJson(s.preferJSON))
+	s.gotPathType = ""
+	rw, err := rwriter.New(w, r, append([]rwriter.Option{rwriter.WithPreferJson(s.preferJSON)}, s.opts...)...)
 	if err != nil {
 		s.newErr = err
 		writeErr(w, err)
 		return
 	}
-	s.gotMh, s.gotCid = rw.Multihash(), rw.Cid()
+	s.gotMh, s.gotCid, s.gotPathType = rw.Multihash(), rw.Cid(), rw.PathType()
 	pw := rwriter.NewProviderResponseWriter(rw)
-	for _, pr := range s.results {
+	results := s.results
+	if s.missFor[string(rw.Multihash())] {
+		results = nil
+	}
+	for _, pr := range results {
 		if err := pw.WriteProviderResult(pr); err != nil {
 			writeErr(w, err)
 			return
@@ -189,7 +200,7 @@ func acceptSpec(accepts []string) (json, nd, bad bool) {
 
 func TestCheck(t *testing.T) {
 	r := vp.New("C19", "exploration",
-		"result lists: every list of 0..N results over 27 result kinds, plus lists of 8, 16, 40, 200 and 1000 results (responses too large for a declared content length), plus every ordered pair of kinds and [A,B,A] / [A,A,A] lists about one provider with equal context ID and metadata bytes (exact repeats, results differing only in their addresses) ({context ID nil/empty/binary} x {metadata nil/empty/binary} x {provider with 0..2 addresses}), written through rwriter (+ProviderResponseWriter) by an in-memory HTTP server and read back by find/client.Find / FindBatch (JSON-preferring server) and raw NDJSON/JSON requests; keys: multihashes of 5 hash functions in base58 and hex, CIDv0/v1 strings; Accept headers: every sequence of <=2 header values over 9 values, both server preferences; 12 request path shapes; apierror: every status 400..599 x 5 messages through EncodeError/DecodeError and FromResponse, bare and inside 5 shapes of error chains (wrapped once / twice, joined first / second, API error wrapping a plain chain). Non-trivial: lists with >=1 result, negotiation/path cases other than the plain JSON request.",
+		"result lists: every list of 0..N results over 27 result kinds, plus lists of 8, 16, 40, 200 and 1000 results (responses too large for a declared content length), plus every ordered pair of kinds and [A,B,A] / [A,A,A] lists about one provider with equal context ID and metadata bytes (exact repeats, results differing only in their addresses) ({context ID nil/empty/binary} x {metadata nil/empty/binary} x {provider with 0..2 addresses}), written through rwriter (+ProviderResponseWriter) by an in-memory HTTP server and read back by find/client.Find / FindBatch (JSON-preferring server; batches of 1..4 multihashes in every pattern of hits and misses) and raw NDJSON/JSON requests; keys: multihashes of 5 hash functions in base58 and hex, CIDv0/v1 strings; Accept headers: every sequence of <=2 header values over 9 values, both server preferences; 12 request path shapes, and 9 more against a server whose resource types are renamed (WithMultihashPathType / WithCidPathType); apierror: every status 400..599 x 5 messages through EncodeError/DecodeError and FromResponse, bare and inside 5 shapes of error chains (wrapped once / twice, joined first / second, API error wrapping a plain chain). Non-trivial: lists with >=1 result, negotiation/path cases other than the plain JSON request.",
 		"the find client sends no Accept header, so client read-back is checked against a server created with WithPreferJson(true); the strict server is checked with raw requests",
 		"nil and empty context ID / metadata are equal (the JSON encoding omits both)",
 		"a key that is both valid base58 and valid hex is only required not to decode to a different valid multihash",
@@ -573,6 +584,47 @@ func TestCheck(t *testing.T) {
 		}
 	}
 
+	// 1b. batches in which some multihashes have results and others have none,
+	// in every arrangement of up to 4: each entry of the batch response is for
+	// a multihash that has results, carries those results, and the entries come
+	// in the order of the request
+	for n := 1; n <= 4; n++ {
+		for mask := 0; mask < 1<<n; mask++ {
+			key := fmt.Sprintf("batch|n=%d|hits=%0*b", n, n, mask)
+			if !r.Mine(key) {
+				continue
+			}
+			r.Eval(key, true)
+			var batch []multihash.Multihash
+			var wantMhs []multihash.Multihash
+			srv.missFor = map[string]bool{}
+			for i := 0; i < n; i++ {
+				m := fixture.Mh(fmt.Sprintf("batch-content-%d", i), multihash.SHA2_256, -1)
+				batch = append(batch, m)
+				if mask&(1<<i) != 0 {
+					wantMhs = append(wantMhs, m)
+				} else {
+					srv.missFor[string(m)] = true
+				}
+			}
+			srv.results, srv.preferJSON, srv.panicked = oneResult, true, ""
+			br, err := client.FindBatch(ctx, cl, batch)
+			srv.missFor = nil
+			if err != nil || br == nil {
+				r.Violation("client:batch-error", key, fmt.Sprint(err), nil)
+				continue
+			}
+			ok := len(br.MultihashResults) == len(wantMhs)
+			for i := 0; ok && i < len(wantMhs); i++ {
+				ok = bytes.Equal(br.MultihashResults[i].Multihash, wantMhs[i]) && sameResults(br.MultihashResults[i].ProviderResults, oneResult)
+			}
+			if !ok {
+				r.Violation("client:batch-differs:hits-and-misses", key, fmt.Sprintf("FindBatch over %d multihashes (hit pattern %0*b) returned %s", n, n, mask, fmtResp(br)), nil)
+			}
+			r.Outcome("batch-ok")
+		}
+	}
+
 	// 4. request paths
 	b58 := mh.B58String()
 	paths := []struct {
@@ -612,6 +664,39 @@ func TestCheck(t *testing.T) {
 		}
 		r.Outcome(fmt.Sprintf("path-%d", status))
 	}
+
+	// 4b. the same with the resource types renamed by the server's options:
+	// the configured names select multihash / CID parsing, the default names
+	// are then unknown resource types
+	srv.opts = []rwriter.Option{rwriter.WithMultihashPathType("mh"), rwriter.WithCidPathType("c")}
+	cidStr := cid.NewCidV1(cid.Raw, mh).String()
+	for _, pc := range []struct {
+		p, typ string
+		want   int
+	}{
+		{"/mh/" + b58, "mh", 200}, {"/c/" + cidStr, "c", 200}, {"/ipni/v1/mh/" + b58, "mh", 200}, {"/mh/" + hex.EncodeToString(mh), "mh", 200},
+		{"/multihash/" + b58, "", 400}, {"/cid/" + cidStr, "", 400}, {"/c/" + fixture.Mh("content", multihash.SHA2_512, -1).B58String(), "", 400}, {"/mh/", "", 400}, {"/MH/" + b58, "", 400},
+	} {
+		key := "path-renamed|" + pc.p
+		if !r.Mine(key) {
+			continue
+		}
+		r.Eval(key, true)
+		srv.results, srv.preferJSON, srv.panicked = oneResult, true, ""
+		status, _, body, err := e.get(pc.p, []string{"application/json"})
+		switch {
+		case err != nil || srv.panicked != "":
+			r.Violation("path:panic-or-transport", key, fmt.Sprint(err, srv.panicked), nil)
+		case pc.want == 200 && (status != 200 || !bytes.Equal(srv.gotMh, mh) || srv.gotPathType != pc.typ):
+			r.Violation("path:valid-rejected:renamed-resource-types", key, fmt.Sprintf("%s answered %d %q (multihash %x, path type %q)", pc.p, status, body, []byte(srv.gotMh), srv.gotPathType), nil)
+		case pc.want != 200 && status == 200:
+			r.Violation("path:invalid-accepted:renamed-resource-types", key, fmt.Sprintf("%s answered 200 for multihash %x", pc.p, []byte(srv.gotMh)), nil)
+		case pc.want != 200 && (status < 400 || status > 499):
+			r.Violation("path:not-4xx", key, fmt.Sprintf("%s answered %d", pc.p, status), nil)
+		}
+		r.Outcome(fmt.Sprintf("path-renamed-%d", status))
+	}
+	srv.opts = nil
 
 	// 5. API errors keep status and message
 	msgs := []string{"", "not found", "ünïcödé ✓", `{"Message":"x","Status":1}`, "multi word message: with colon"}
